@@ -82,9 +82,31 @@ def dispatch(it, st, stack, fr, dest, callee, args, ret_bb):
             fn = it.prog.funcs.get(target) or it.prog.func_by_suffix(target.split('::')[-1])
             return push_wrap_err(it, stack, fr, dest, fn, [e], ret_bb)
         raise Unsupported('map_err with %r' % (f,))
-    if re.match(r'^Option::<.*>::ok_or', c):
+    if re.match(r'^Option::<.*>::ok_or_else::<', c):
+        v, f = args
+        if v.variant == 'Some':
+            return ok(v.fields[0].v)
+        if isinstance(f, Sym) and f.name == 'fnitem':
+            target = f.args[0]
+            if target.startswith('{closure@'):
+                cands = [fn for n, fn in it.prog.funcs.items() if '{closure#' in n and fn.args and fn.args[0][1] == target]
+                if len(cands) != 1:
+                    raise Unsupported('closure %s: %d candidates' % (target, len(cands)))
+                return push_wrap_err(it, stack, fr, dest, cands[0], [Sym('closure_env')], ret_bb)
+            fn = it.prog.funcs.get(target) or it.prog.func_by_suffix(target.split('::')[-1])
+            return push_wrap_err(it, stack, fr, dest, fn, [], ret_bb)
+        raise Unsupported('ok_or_else with %r' % (f,))
+    if re.match(r'^Option::<.*>::ok_or::<', c) or re.match(r'^Option::<.*>::ok_or$', c):
         v, e = args
         return ok(v.fields[0].v) if v.variant == 'Some' else err(e)
+    # logging: environment without effect; the level filter is taken as "disabled" (the formatting
+    # of a log line has no influence on the response or on storage)
+    if re.search(r'<Level as PartialOrd<LevelFilter>>::(le|lt|ge|gt)$', c) or c.endswith('log::__private_api::enabled'):
+        return False
+    if c == 'max_level' or c.endswith('log::max_level') or c.endswith('log::__private_api::loc'):
+        return Sym('log_env')
+    if re.search(r'log::__private_api::log(::<.*>)?$', c):
+        return UNIT
     if c.endswith('IntoFuture>::into_future') or c.startswith('Pin::<') or c.endswith('::new_unchecked'):
         return args[0]
     if c.endswith('as PartialEq>::ne') or c.endswith('as PartialEq>::eq') or re.search(r'as PartialEq<.*>>::(ne|eq)$', c):
@@ -270,6 +292,8 @@ def dispatch(it, st, stack, fr, dest, callee, args, ret_bb):
     if m:
         op = m.group(1)
         a = [deref(x) if isinstance(x, Ref) and isinstance(deref(x), (Sym, Str)) else x for x in args[1:]]
+        # a byte container handed over by value (Vec<u8> built by clone/collect/to_vec alike): its content
+        a = [Sym('bytes', tuple(x.parts)) if isinstance(x, Buf) else x for x in a]
         st.effects = st.effects + [('Server::' + op,) + tuple(a)]
         n = sum(1 for e in st.effects if e[0] == 'Server::' + op)
         tag = '%s#%d' % (op, n)
